@@ -218,10 +218,209 @@ def op_validate(case: Dict[str, Any]) -> Dict[str, Any]:
         ans["kind"] = kind_of_message(x)
     if case.get("lossless"):
         ans["lossless"] = lossless_problems(x, wire, dump)
+    if not isinstance(x, list):
+        ans["json"] = json_path(x)
+        if case.get("lossless"):
+            j = ans["json"].get("exclude_none+by_alias", {})
+            if "value" in j:
+                ans["lossless_json"] = lossless_problems(x, wire, dec(j["value"]))
+    return ans
+
+
+# ---------------------------------------------------------------------------
+# the JSON path: model_dump_json with the keyword variants the library itself uses
+# ---------------------------------------------------------------------------
+JSON_VARIANTS = [("exclude_none", {"exclude_none": True}), ("by_alias", {"by_alias": True}),
+                 ("exclude_none+by_alias", {"exclude_none": True, "by_alias": True}), ("plain", {})]
+
+
+def first_json_diff(a: Any, b: Any, path: str = "") -> Optional[str]:
+    """Location of the first difference between two JSON values (numbers by value), or None."""
+    if isinstance(a, dict) and isinstance(b, dict):
+        for k in a:
+            if k not in b:
+                return f"{path}.{k}" if path else k
+        for k in b:
+            if k not in a:
+                return f"{path}.{k}" if path else k
+        for k in a:
+            d = first_json_diff(a[k], b[k], f"{path}.{k}" if path else k)
+            if d is not None:
+                return d
+        return None
+    if isinstance(a, list) and isinstance(b, list):
+        if len(a) != len(b):
+            return path or "<top>"
+        for i, (x, y) in enumerate(zip(a, b)):
+            d = first_json_diff(x, y, f"{path}[{i}]")
+            if d is not None:
+                return d
+        return None
+    return None if json_equal(a, b) else (path or "<top>")
+
+
+def json_path(x: Any) -> Dict[str, Any]:
+    """variant -> {"value": tagged json.loads(model_dump_json(**kw)), "vs_dump": None | path}; the text is parsed
+    with the standard library.  vs_dump compares with model_dump(**kw) of the same object - or, for a call without
+    exclude_none, with model_dump(**kw, exclude_none=True) as well (a class may document that its JSON form
+    leaves nulls out by default, as the unified JSONRPCMessage does)."""
+    import json as _json
+
+    out: Dict[str, Any] = {}
+    for name, kw in JSON_VARIANTS:
+        try:
+            text = x.model_dump_json(**kw)
+            j = _json.loads(text)
+        except Exception as e:  # noqa: BLE001
+            out[name] = {"exc": exc_facts(e)}
+            continue
+        r: Dict[str, Any] = {"value": enc(j)}
+        try:
+            d = to_plain(x.model_dump(**kw))
+            where = first_json_diff(d, j)
+            if where is not None and "exclude_none" not in kw:
+                alt = first_json_diff(to_plain(x.model_dump(**{**kw, "exclude_none": True})), j)
+                where = None if alt is None else where
+            r["vs_dump"] = where
+        except Exception as e:  # noqa: BLE001
+            r["vs_dump_exc"] = exc_facts(e)
+        out[name] = r
+    return out
+
+
+def to_plain(v: Any) -> Any:
+    """model_dump output as a JSON value (tuples -> lists, nested models dumped as they are met)."""
+    if isinstance(v, dict):
+        return {str(k): to_plain(x) for k, x in v.items()}
+    if isinstance(v, (list, tuple)):
+        return [to_plain(x) for x in v]
+    return v
+
+
+# ---------------------------------------------------------------------------
+# mutation isolation (C10): what one validated object holds must not be shared with the next one
+# ---------------------------------------------------------------------------
+def _mutables(x: Any, path: str, out: List, depth: int = 0) -> None:
+    if depth > 6:
+        return
+    if is_instance(x):
+        out.append((path, x))
+        for k, v in members(x).items():
+            _mutables(v, f"{path}.{k}" if path else k, out, depth + 1)
+    elif isinstance(x, dict):
+        out.append((path, x))
+        for k, v in x.items():
+            _mutables(v, f"{path}.{k}" if path else str(k), out, depth + 1)
+    elif isinstance(x, list):
+        out.append((path, x))
+        for i, v in enumerate(x):
+            _mutables(v, f"{path}[{i}]", out, depth + 1)
+
+
+def _defaults_of(x: Any, w: Any, path: str, out: List) -> None:
+    """(path, value) of every member of the validated object that did not come from the wire object."""
+    if not is_instance(x) or not isinstance(w, dict):
+        return
+    mem = members(x)
+    for f in wiregen.fields(type(x)):
+        v = mem.get(f.name)
+        p = f"{path}.{f.name}" if path else f.name
+        if f.wire in w or f.name in w:
+            wv = w.get(f.wire, w.get(f.name))
+            if is_instance(v):
+                _defaults_of(v, wv, p, out)
+            elif isinstance(v, list) and isinstance(wv, list) and len(v) == len(wv):
+                for i, (a, b) in enumerate(zip(v, wv)):
+                    _defaults_of(a, b, f"{p}[{i}]", out)
+        elif v is not None:
+            out.append((p, v))
+
+
+def _mutate(v: Any, undo: List, depth: int = 0) -> int:
+    """In-place mutation of a mutable value (and what it holds); returns how many objects were touched."""
+    n = 0
+    if depth > 4:
+        return 0
+    if is_instance(v):
+        for k, cur in list(members(v).items()):
+            new = (not cur) if isinstance(cur, bool) else cur + 1 if isinstance(cur, (int, float)) else \
+                cur + "-vf-mut" if isinstance(cur, str) else True if cur is None else None
+            if new is not None:
+                try:
+                    object.__setattr__(v, k, new) if k not in getattr(v, "__dict__", {}) else v.__dict__.__setitem__(k, new)
+                    undo.append(lambda v=v, k=k, cur=cur: v.__dict__.__setitem__(k, cur) if k in v.__dict__
+                                else object.__setattr__(v, k, cur))
+                    n += 1
+                except Exception:  # noqa: BLE001
+                    pass
+            else:
+                n += _mutate(cur, undo, depth + 1)
+    elif isinstance(v, dict):
+        for cur in list(v.values()):
+            n += _mutate(cur, undo, depth + 1)
+        v["vf-mut"] = 1
+        undo.append(lambda v=v: v.pop("vf-mut", None))
+        n += 1
+    elif isinstance(v, list):
+        for cur in list(v):
+            n += _mutate(cur, undo, depth + 1)
+        v.append("vf-mut")
+        undo.append(lambda v=v: v.remove("vf-mut") if "vf-mut" in v else None)
+        n += 1
+    return n
+
+
+def op_isolation(case: Dict[str, Any]) -> Dict[str, Any]:
+    """validate twice -> no shared mutable object; validate, mutate every defaulted member in place, validate again ->
+    same dump as before.  Every validation gets its own freshly decoded wire object, so nothing can be shared through
+    the input."""
+    cls = cls_of(case["target"])
+    try:
+        x1 = cls.model_validate(dec(case["wire"]))
+        x2 = cls.model_validate(dec(case["wire"]))
+        dump1 = x1.model_dump(by_alias=True, exclude_none=True)
+    except Exception as e:  # noqa: BLE001
+        return {"ok": False, **exc_facts(e)}
+    ans: Dict[str, Any] = {"ok": True, "shared": [], "leaks": None}
+    m1: List = []
+    m2: List = []
+    _mutables(x1, "", m1)
+    _mutables(x2, "", m2)
+    ids2 = {id(o): p for p, o in m2}
+    for p, o in m1:
+        if id(o) in ids2:
+            ans["shared"].append({"path": _IDX.sub("[]", p) or "<top>", "type": type(o).__name__})
+    ans["mutable_objects"] = len(m1)
+    defaults: List = []
+    _defaults_of(x1, dec(case["wire"]), "", defaults)
+    undo: List = []
+    touched = 0
+    try:
+        for p, v in defaults:
+            touched += _mutate(v, undo)
+        ans["defaults_mutated"] = touched
+        if touched:
+            try:
+                x3 = cls.model_validate(dec(case["wire"]))
+                dump3 = x3.model_dump(by_alias=True, exclude_none=True)
+                where = first_json_diff(to_plain(dump1), to_plain(dump3))
+                if where is not None:
+                    ans["leaks"] = {"path": _IDX.sub("[]", where)}
+            except Exception as e:  # noqa: BLE001
+                ans["leaks"] = {"path": "<validation>", "exc": exc_facts(e)}
+    finally:
+        for u in reversed(undo):
+            try:
+                u()
+            except Exception:  # noqa: BLE001
+                pass
     return ans
 
 
 def child_handle(case: Any) -> Any:
-    if case.get("op", "validate") == "validate":
+    op = case.get("op", "validate")
+    if op == "validate":
         return op_validate(case)
-    raise ValueError(f"unknown op {case.get('op')!r}")
+    if op == "isolation":
+        return op_isolation(case)
+    raise ValueError(f"unknown op {op!r}")
